@@ -44,6 +44,9 @@ func genCfg(rng *hx.Rng, prop string, meta *hx.Meta) cfg {
 		if rng.Chance(20) {
 			c.QCap = 0 // synchronous channel: the closers overlap inside transport.Close
 		}
+		// the parent context ends while / before the Close calls run: the inactive event still carries the error of
+		// the Close call that took effect (nil for Close(nil)), not the context's
+		c.Parent = rng.Chance(25)
 	case "C07":
 		// synchronous channel whose transport fails the k-th write: the lock must be released, later calls go on
 		c.QCap = 0
